@@ -58,6 +58,7 @@ type target struct {
 	Effects  map[string]string // statement-level calls with an effect: callee text -> Lean function `f fx args..` : the new `fx`
 	Fall     string            // Lean term for falling off the end / a bare `return` (default `()`, or the receiver)
 	Imports  []string          // extra imports of the generated file of this property
+	Lit      int               // > 0: translate the Lit-th function literal (closure) inside the function instead
 }
 
 type tr struct {
@@ -863,14 +864,33 @@ func translate(t *target) (string, []string) {
 	if t.Partial {
 		fall = "(some " + fall + ")"
 	}
+	fbody := fd.Body
+	if t.Lit > 0 {
+		k := 0
+		var lit *ast.FuncLit
+		ast.Inspect(fd.Body, func(n ast.Node) bool {
+			if fl, ok := n.(*ast.FuncLit); ok {
+				k++
+				if k == t.Lit && lit == nil {
+					lit = fl
+				}
+			}
+			return true
+		})
+		if lit == nil {
+			x.errf("function literal %d of %s not found", t.Lit, t.Func)
+			return fmt.Sprintf("def %s %s :=\n  (translate_error \"function literal not found\")\n", t.Lean, t.Sig), x.errs
+		}
+		fbody = lit.Body
+	}
 	x.loopID = map[token.Pos]int{}
-	ast.Inspect(fd.Body, func(n ast.Node) bool {
+	ast.Inspect(fbody, func(n ast.Node) bool {
 		if f, ok := n.(*ast.ForStmt); ok {
 			x.loopID[f.Pos()] = len(x.loopID)
 		}
 		return true
 	})
-	body := x.stmts(fd.Body.List, fall, "  ")
+	body := x.stmts(fbody.List, fall, "  ")
 	doc := t.Doc
 	if doc == "" {
 		doc = "translated from " + t.File
